@@ -24,9 +24,9 @@ import vlib
 WILD = {"ArgUseAfterFree", "KeywordFreesLit", "UndefFreesHeldBody"}
 SECTION8 = ["PendingReuse", "PaintBody", "MacroequalSpace"]
 
-QUICK = dict(ref=["t0", "redef", "q1s", "q2s", "q3s", "q4s"], dev=["t0", "redef", "q1s", "q2s", "q3s", "q4s"],
+QUICK = dict(ref=["peek", "t0", "redef", "q1s", "q2s", "q3s", "q4s"], dev=["sec8", "t0", "redef", "q1s", "q2s", "q3s", "q4s"],
              simE=(6, 150), simC=(4, 120), audit=4000)
-THOROUGH = dict(ref=["t0", "redef", "q1", "q2", "q3", "q4"], dev=["t0", "redef", "q1", "q2", "q3", "q4"],
+THOROUGH = dict(ref=["peek", "t0", "redef", "q1", "q2", "q3", "q4"], dev=["sec8", "t0", "redef", "q1", "q2", "q3", "q4"],
                 simE=(14, 700), simC=(10, 500), audit=40000)
 
 
@@ -68,9 +68,9 @@ def tok_class(t):
     return {"TNUMBER": "num", "TSTRINGLIT": "str", "TCHARCONST": "chr"}.get(kn, "p")
 
 
-def tokens_of(objdir, src):
-    """token stream of `cproc-qbe -E` through the H1 dump: (status, [{k,s}])"""
-    rc, out, err = vlib.cproc(objdir, src, args=["-E"], tokdump=True)
+def tokens_of(objdir, src, trace=None):
+    """token stream of `cproc-qbe -E` through the H1 dump: (status, [{k,s}]); trace: file for the H7 events"""
+    rc, out, err = vlib.cproc(objdir, src, args=["-E"], tokdump=True, trace=trace)
     if rc == 1:
         return {"st": "error", "out": [], "err": err.strip()[:200]}
     if rc != 0:
@@ -152,7 +152,7 @@ def observe(objs, c):
     if c["tag"] == "excl":
         return None
     if c["mode"] == "E":
-        o = tokens_of(objs["hooks"], render(c["prog"]))
+        o = tokens_of(objs["hooks"], render(c["prog"]), trace=c.get("_trace"))
         inper = any(conf(o, d) for d in c["per"])
         eqm = conf(o, dict(c["model"], out=[dict(t, x=True) for t in c["model"]["out"]]))
         return inper, eqm, o
@@ -200,6 +200,68 @@ def judge(ctx, c, res, stats):
         ctx.violation("expand:%s:%s" % (mode, "model-agrees-without-deviation" if eqm else "unexplained"),
                       "binary is neither a permitted outcome nor PPModel(KnownDevs)", case)
         stats["VIOLATION"] += 1
+
+
+# ---------------------------------------------------------------- flow B: H7 events against Trace_PP.tla
+def read_events(path):
+    try:
+        return [l for l in open(path).read().split("\n") if l.strip()]
+    except OSError:
+        return []
+
+
+def trace_run(ctx, name, chunks, cfg="MC_Trace_PP.cfg"):
+    """chunks: list of (label, [event lines], exited0).  True iff Trace_PP accepts the concatenation."""
+    p = ctx.path(name + ".ndjson")
+    with open(p, "w") as f:
+        for _, evs, ok in chunks:
+            for e in evs:
+                f.write(e + "\n")
+            if ok:
+                f.write('{"e":"End"}\n')
+            f.write('{"e":"Reset"}\n')
+    r = _tlc(ctx, "Trace_PP", cfg, workers=1, env={"TRACE": p}, timeout=2400, heap="4g")
+    return r.ok
+
+
+def flow_b(ctx, objs, traced):
+    """traced: list of (label, tracefile, exited0, stale).  Every execution must obey the hide discipline."""
+    # the repository's own preprocessor tests
+    for t in sorted(os.listdir(os.path.join(vlib.REPO, "test"))):
+        if t.startswith("preprocess-") and t.endswith(".c"):
+            tp = ctx.path("tr_" + t + ".nd")
+            rc, _, _ = vlib.cproc(objs["hooks"], None, args=["-E"], trace=tp, path=os.path.join(vlib.REPO, "test", t))
+            traced.append(("test/" + t, tp, rc == 0, False))
+    chunks = [(lab, read_events(tp), ok) for lab, tp, ok, stale in traced if not stale]
+    stale = [(lab, read_events(tp), ok) for lab, tp, ok, st in traced if st]
+    nev = sum(len(c[1]) for c in chunks) + sum(len(c[1]) for c in stale)
+    ctx.cov["flowB_executions"] = len(chunks) + len(stale)
+    ctx.cov["flowB_events"] = nev
+    if stale and not trace_run(ctx, "stale", stale, "MC_Trace_PP_stale.cfg"):
+        ctx.violation("trace:discipline-stale", "H7 events rejected by Trace_PP even with the StaleDepth deviation", {"n": len(stale)})
+    size = 400
+    groups = [chunks[i:i + size] for i in range(0, len(chunks), size)]
+    oks = vlib.pmap(lambda ig: trace_run(ctx, "grp%d" % ig[0], ig[1]), list(enumerate(groups)), workers=6)
+    for g, ok in zip(groups, oks):
+        if ok:
+            ctx.validated(len(g))
+            continue
+        for i, ch in enumerate(g):          # locate the rejected execution(s)
+            if not trace_run(ctx, "one%d" % i, [ch]):
+                ctx.violation("trace:discipline", "H7 push/pop/args events of a real execution violate the hide discipline (Trace_PP.tla)",
+                              {"input": ch[0], "events": ch[1][:60]})
+            else:
+                ctx.validated(1)
+    # the binding is not vacuous: a corrupted pop must be rejected
+    probe = [c for c in chunks if sum('"pop"' in e for e in c[1]) >= 2][:1]
+    if probe:
+        lab, evs, ok = probe[0]
+        i = max(j for j, e in enumerate(evs) if '"pop"' in e)
+        bad = list(evs)
+        bad[i] = re.sub(r'"depth":(\d+)', lambda m: '"depth":%d' % (int(m.group(1)) + 1), bad[i])
+        if trace_run(ctx, "corrupt", [(lab, bad, ok)]):
+            raise vlib.MachineryError("Trace_PP accepted a corrupted pop event: flow B is vacuous")
+        ctx.cov["flowB_negative_control"] = "corrupted pop depth rejected"
 
 
 # ---------------------------------------------------------------- audit of the spec against gcc cpp
@@ -316,8 +378,16 @@ def run(ctx):
             seen.add(k)
             allc.append(c)
     stats = collections.Counter()
-    for c, res in zip(allc, vlib.pmap(lambda c: observe(objs, c), allc, workers=16)):
+    for i, c in enumerate(allc):
+        if c["mode"] == "E" and c["tag"] != "excl":
+            c["_trace"] = ctx.path("tr%d.nd" % i)
+    results = vlib.pmap(lambda c: observe(objs, c), allc, workers=16)
+    traced = []
+    for c, res in zip(allc, results):
         judge(ctx, c, res, stats)
+        if "_trace" in c and res is not None and not res[2]["st"].startswith("crash"):
+            traced.append((render(c["prog"]), c["_trace"], res[2]["st"] == "ok", "StaleDepth" in c["fired"]))
+    flow_b(ctx, objs, traced)
     ctx.validated(len(allc) - stats[EXCL])
     ctx.cov["outcomes"] = dict(sorted(stats.items()))
     ctx.cov["cases_from_bfs"] = len(bfs_cases)
